@@ -86,6 +86,12 @@ func c12Cases(tier string) []Case {
 	ex("sendall-unbounded", sendAll("USD", "{ @a @b allowing unbounded overdraft }", "@d"), "", "", "InvalidUnboundedInSendAll")
 	ex("sendall-allotment", sendAll("USD", "{ 1/2 from @a 1/2 from @b }", "@d"), "", "", "InvalidAllotmentInSendAll")
 	ex("metadata-not-found", "vars {\n account $x = meta(@a, \"k\")\n}\n"+send("[USD 1]", "$x", "@d"), "", "", "MetadataNotFound")
+	ex("metadata-not-found", "vars {\n string $x = meta(@a, \"k\")\n}\nset_tx_meta(\"copied\", $x)", "_meta=a.j:other", "", "MetadataNotFound")
+	ex("metadata-not-found", "vars {\n number $x = meta(@a, \"k\")\n}\nset_tx_meta(\"copied\", $x)", "_meta=a.j:1,b.k:2", "", "MetadataNotFound")
+	ex("sendall-bad-bound", "vars {\n monetary $c\n}\n"+sendAll("USD", "@a allowing overdraft up to $c", "@d"), "c=mon:EUR", "", "MismatchedCurrencyError")
+	ex("sendall-bad-bound", "vars {\n number $c\n}\n"+sendAll("USD", "{ @b @a allowing overdraft up to $c }", "@d"), "c=num", "", "TypeError")
+	ex("sendall-bad-bound", sendAll("USD", "max [USD 5] from @a allowing overdraft up to $ghost", "@d"), "", "", "UnboundVariableErr")
+	ex("sendall-bad-cap", "vars {\n monetary $c\n}\n"+sendAll("USD", "max $c from @a", "{ max $c to @d remaining kept }"), "c=mon:EUR", "", "MismatchedCurrencyError")
 	ex("experimental-flag", "vars {\n monetary $o = overdraft(@a, USD)\n}\n"+send("$o", "@world", "@d"), "", "", "ExperimentalFeature")
 	ex("negative-balance", "vars {\n monetary $m = balance(@a, USD)\n}\n"+send("$m", "@world", "@d"), "", "", "|NegativeBalanceError")
 	ex("zero-denominator", send("[USD 10]", "@world", "{ 1/0 to @d remaining to @e }"), "", "", "BadPortionParsingErr|InvalidAllotmentSum|other")
